@@ -20,53 +20,216 @@ class NotLiteral(Exception):
     pass
 
 
-def eval_literal(F: Facts, m: Module, node: ast.AST, _depth: int = 0):
-    """Evaluate tuple/dict/str displays built from module-level names."""
-    if _depth > 20:
+_PURE_STR_METHODS = {'upper', 'lower', 'title', 'capitalize', 'strip', 'lstrip', 'rstrip', 'format', 'join', 'split', 'replace',
+                     'startswith', 'endswith', 'swapcase', 'casefold', 'isupper', 'islower', 'isalpha', 'isidentifier', 'zfill',
+                     'removeprefix', 'removesuffix', 'partition', 'rpartition', 'splitlines', 'count', 'find', 'index'}
+_PURE_BUILTINS = {'tuple': tuple, 'list': list, 'sorted': sorted, 'set': set, 'dict': dict, 'frozenset': frozenset, 'len': len,
+                  'str': str, 'zip': lambda *a: list(zip(*a)), 'enumerate': lambda *a: list(enumerate(*a)),
+                  'range': lambda *a: list(range(*a)), 'reversed': lambda a: list(reversed(a)), 'min': min, 'max': max,
+                  'int': int, 'bool': bool, 'any': any, 'all': all, 'sum': sum, 'map': None, 'filter': None}
+
+
+def eval_literal(F: Facts, m: Module, node: ast.AST, _depth: int = 0, env: Optional[dict] = None):
+    """Constant folding of module-level table expressions: displays, comprehensions, string methods and a few pure
+    builtins over values that are themselves literals.  Anything else raises NotLiteral."""
+    if _depth > 40:
         raise NotLiteral('too deep')
+    env = env or {}
+
+    def ev(n, e=env):
+        return eval_literal(F, m, n, _depth + 1, e)
     if isinstance(node, ast.Constant):
         return node.value
-    if isinstance(node, (ast.Tuple, ast.List)):
+    if isinstance(node, (ast.Tuple, ast.List, ast.Set)):
         out = []
         for e in node.elts:
             if isinstance(e, ast.Starred):
-                out.extend(list(eval_literal(F, m, e.value, _depth + 1)))
+                out.extend(list(ev(e.value)))
             else:
-                out.append(eval_literal(F, m, e, _depth + 1))
-        return tuple(out) if isinstance(node, ast.Tuple) else out
+                out.append(ev(e))
+        return tuple(out) if isinstance(node, ast.Tuple) else (set(out) if isinstance(node, ast.Set) else out)
     if isinstance(node, ast.Dict):
         d = {}
         for k, v in zip(node.keys, node.values):
             if k is None:
-                d.update(eval_literal(F, m, v, _depth + 1))
+                d.update(ev(v))
             else:
-                d[eval_literal(F, m, k, _depth + 1)] = eval_literal(F, m, v, _depth + 1)
+                d[ev(k)] = ev(v)
         return d
     if isinstance(node, ast.Name):
+        if node.id in env:
+            return env[node.id]
         return module_value(F, m, node.id, _depth + 1)
     if isinstance(node, ast.Attribute):
         r = F.resolve_expr(m, node.value)
         if r[0] == 'pkgmod' and r[1] in F.modules:
             return module_value(F, F.modules[r[1]], node.attr, _depth + 1)
         raise NotLiteral(norm(node))
-    if isinstance(node, ast.Call):
-        if isinstance(node.func, ast.Attribute) and node.func.attr in ('values', 'keys', 'items') and not node.args:
-            d = eval_literal(F, m, node.func.value, _depth + 1)
-            if isinstance(d, dict):
-                return list(getattr(d, node.func.attr)())
-        if isinstance(node.func, ast.Name) and node.func.id in ('tuple', 'list', 'sorted', 'set', 'dict') and len(node.args) <= 1:
-            v = eval_literal(F, m, node.args[0], _depth + 1) if node.args else ()
-            return {'tuple': tuple, 'list': list, 'sorted': sorted, 'set': set, 'dict': dict}[node.func.id](v)
+    if isinstance(node, (ast.ListComp, ast.SetComp, ast.GeneratorExp, ast.DictComp)):
+        out = []
+
+        def bind(target, value, e):
+            if isinstance(target, ast.Name):
+                e[target.id] = value
+            elif isinstance(target, (ast.Tuple, ast.List)) and not any(isinstance(x, ast.Starred) for x in target.elts):
+                vs = list(value)
+                if len(vs) != len(target.elts):
+                    raise NotLiteral(norm(node))
+                for t_, v_ in zip(target.elts, vs):
+                    bind(t_, v_, e)
+            else:
+                raise NotLiteral(norm(node))
+
+        def gen(i, e):
+            if i == len(node.generators):
+                if isinstance(node, ast.DictComp):
+                    out.append((ev(node.key, e), ev(node.value, e)))
+                else:
+                    out.append(ev(node.elt, e))
+                return
+            g = node.generators[i]
+            if g.is_async:
+                raise NotLiteral(norm(node))
+            it = ev(g.iter, e)
+            if isinstance(it, dict):
+                it = list(it)
+            if not isinstance(it, (list, tuple, set, frozenset, str)):
+                raise NotLiteral(norm(node))
+            if len(out) > 10000:
+                raise NotLiteral('comprehension too large')
+            for x in (sorted(it) if isinstance(it, (set, frozenset)) else it):
+                e2 = dict(e)
+                bind(g.target, x, e2)
+                if all(ev(c, e2) for c in g.ifs):
+                    gen(i + 1, e2)
+        gen(0, dict(env))
+        if isinstance(node, ast.DictComp):
+            return dict(out)
+        if isinstance(node, ast.SetComp):
+            return set(out)
+        return out
+    if isinstance(node, ast.Call) and not node.keywords:
+        if isinstance(node.func, ast.Attribute):
+            recv = ev(node.func.value)
+            args = [ev(a) for a in node.args]
+            meth = node.func.attr
+            if isinstance(recv, dict) and meth in ('values', 'keys', 'items', 'get', 'copy'):
+                r = getattr(recv, meth)(*args)
+                return list(r) if meth in ('values', 'keys', 'items') else r
+            if isinstance(recv, str) and meth in _PURE_STR_METHODS:
+                try:
+                    return getattr(recv, meth)(*args)
+                except Exception as e:
+                    raise NotLiteral('%s: %s' % (norm(node), e))
+            if isinstance(recv, (list, tuple)) and meth in ('index', 'count', 'copy'):
+                try:
+                    return getattr(recv, meth)(*args)
+                except Exception as e:
+                    raise NotLiteral('%s: %s' % (norm(node), e))
+            if isinstance(recv, (set, frozenset)) and meth in ('union', 'difference', 'intersection', 'copy'):
+                return getattr(recv, meth)(*args)
+            raise NotLiteral(norm(node))
+        if isinstance(node.func, ast.Name) and node.func.id not in env and _PURE_BUILTINS.get(node.func.id) is not None \
+                and F.resolve_name(m, node.func.id)[0] == 'builtin':
+            args = [ev(a) for a in node.args]
+            try:
+                return _PURE_BUILTINS[node.func.id](*args)
+            except NotLiteral:
+                raise
+            except Exception as e:
+                raise NotLiteral('%s: %s' % (norm(node), e))
         raise NotLiteral(norm(node))
-    if isinstance(node, ast.BinOp) and isinstance(node.op, ast.Add):
-        a = eval_literal(F, m, node.left, _depth + 1)
-        b = eval_literal(F, m, node.right, _depth + 1)
-        if type(a) in (tuple, list, str) and type(a) is type(b):
-            return a + b
-        if isinstance(a, (tuple, list)) and isinstance(b, (tuple, list)):
-            return tuple(a) + tuple(b)
+    if isinstance(node, ast.BinOp):
+        a = ev(node.left)
+        b = ev(node.right)
+        if isinstance(node.op, ast.Add):
+            if type(a) in (tuple, list, str) and type(a) is type(b):
+                return a + b
+            if isinstance(a, (tuple, list)) and isinstance(b, (tuple, list)):
+                return tuple(a) + tuple(b)
+        if isinstance(node.op, ast.Mod) and isinstance(a, str):
+            try:
+                return a % b
+            except Exception as e:
+                raise NotLiteral('%s: %s' % (norm(node), e))
+        if isinstance(node.op, ast.BitOr) and isinstance(a, (set, frozenset)) and isinstance(b, (set, frozenset)):
+            return a | b
+        if isinstance(node.op, ast.BitOr) and isinstance(a, dict) and isinstance(b, dict):
+            return {**a, **b}
+        if isinstance(node.op, ast.Sub) and isinstance(a, (set, frozenset)) and isinstance(b, (set, frozenset)):
+            return a - b
+        if isinstance(node.op, ast.Mult) and isinstance(a, (str, list, tuple)) and isinstance(b, int):
+            return a * b
+        raise NotLiteral(norm(node))
     if isinstance(node, ast.JoinedStr):
+        parts = []
+        for v in node.values:
+            if isinstance(v, ast.Constant):
+                parts.append(str(v.value))
+            elif isinstance(v, ast.FormattedValue) and v.format_spec is None and v.conversion in (-1, 115, 114):
+                x = ev(v.value)
+                parts.append(repr(x) if v.conversion == 114 else str(x))
+            else:
+                raise NotLiteral(norm(node))
+        return ''.join(parts)
+    if isinstance(node, ast.Subscript):
+        b = ev(node.value)
+        if isinstance(node.slice, ast.Slice):
+            lo = ev(node.slice.lower) if node.slice.lower else None
+            hi = ev(node.slice.upper) if node.slice.upper else None
+            st = ev(node.slice.step) if node.slice.step else None
+            if isinstance(b, (list, tuple, str)):
+                return b[lo:hi:st]
+            raise NotLiteral(norm(node))
+        i = ev(node.slice)
+        try:
+            return b[i]
+        except Exception as e:
+            raise NotLiteral('%s: %s' % (norm(node), e))
+    if isinstance(node, ast.IfExp):
+        return ev(node.body) if ev(node.test) else ev(node.orelse)
+    if isinstance(node, ast.BoolOp):
+        v = None
+        for x in node.values:
+            v = ev(x)
+            if isinstance(node.op, ast.And) and not v:
+                return v
+            if isinstance(node.op, ast.Or) and v:
+                return v
+        return v
+    if isinstance(node, ast.UnaryOp) and isinstance(node.op, ast.Not):
+        return not ev(node.operand)
+    if isinstance(node, ast.UnaryOp) and isinstance(node.op, ast.USub):
+        v = ev(node.operand)
+        if isinstance(v, (int, float)) and not isinstance(v, bool):
+            return -v
         raise NotLiteral(norm(node))
+    if isinstance(node, ast.Compare) and len(node.ops) == 1:
+        a, b = ev(node.left), ev(node.comparators[0])
+        op = node.ops[0]
+        try:
+            if isinstance(op, ast.In):
+                return a in b
+            if isinstance(op, ast.NotIn):
+                return a not in b
+            if isinstance(op, ast.Eq):
+                return a == b
+            if isinstance(op, ast.NotEq):
+                return a != b
+            if isinstance(op, ast.Is):
+                return a is b if (a is None or b is None) else a == b
+            if isinstance(op, ast.IsNot):
+                return a is not b if (a is None or b is None) else a != b
+            if isinstance(op, ast.Lt):
+                return a < b
+            if isinstance(op, ast.LtE):
+                return a <= b
+            if isinstance(op, ast.Gt):
+                return a > b
+            if isinstance(op, ast.GtE):
+                return a >= b
+        except Exception as e:
+            raise NotLiteral('%s: %s' % (norm(node), e))
     raise NotLiteral(norm(node))
 
 
@@ -258,6 +421,7 @@ class LexRule:
     regex: str
     func: Optional[ast.FunctionDef]
     line: int
+    dropped: bool = False      # t_ignore_<X> string rule: the match is discarded, no token is produced
 
 
 @dataclass
@@ -289,8 +453,8 @@ def extract_lexer(F: Facts, g: Optional[Grammar] = None) -> LexSpec:
             if tn == 'eof':
                 eof_func = node          # PLY calls it when the input is exhausted; not part of the master regex
                 continue
-            if tn == 'ignore':
-                raise AnalysisError('lexer: t_ignore as a function is not modelled')
+            if tn == 'ignore' or tn.startswith('ignore_'):
+                raise AnalysisError('lexer: %s as a function is not modelled' % name)
             if node.decorator_list:
                 raise AnalysisError('lexer: decorated token rule %s is not modelled' % name)
             doc = ast.get_docstring(node, clean=False)
@@ -305,9 +469,7 @@ def extract_lexer(F: Facts, g: Optional[Grammar] = None) -> LexSpec:
             if tn == 'ignore':
                 ignore = vals[0].value
                 continue
-            if tn.startswith('ignore_'):
-                raise AnalysisError('lexer: %s not modelled' % name)
-            srules.append(LexRule(tn, vals[0].value, None, vals[0].lineno))
+            srules.append(LexRule(tn, vals[0].value, None, vals[0].lineno, dropped=tn.startswith('ignore_')))
     if 'states' in lex_m.assigns:
         raise AnalysisError('lexer: lexer states are not modelled')
     frules.sort(key=lambda r: r.line)
